@@ -16,6 +16,7 @@ def handlers : List (List String → Option String) := [opsReport, opsStats, ops
 
 def step (line : String) : String :=
   if line.startsWith "pipeline " then opPipeline (line.drop 9).toString else
+  if line.startsWith "regroup " then opRegroup (line.drop 8).toString else
   let toks := (line.trimAscii.toString.splitOn " ").filter (· ≠ "")
   match handlers.findSome? (fun h => h toks) with
   | some r => r
